@@ -636,14 +636,17 @@ func (se *SpecEnv) evalCall(x *ECall) Value {
 		return Value{T: app("path.join3", se.eval(x.Args[0]).T, se.eval(x.Args[1]).T, se.eval(x.Args[2]).T), Sort: "Str", GoT: types.Typ[types.String]}
 	case "rangevisited":
 		// rangevisited(k): the map range of this function has already produced key k
-		if se.e.rangeKeySort == "" {
-			sfail("rangevisited: the function has no range over a map")
+		if se.e.rangeMap == "" {
+			sfail("rangevisited: the function has no range over a map (or the clause is evaluated before the range starts)")
+		}
+		if se.e.rangeMap == "?" {
+			sfail("rangevisited: the function has several ranges over maps")
 		}
 		k := se.eval(x.Args[0])
 		if se.e.rangeKeySort == "Val" && k.Sort != "Val" {
 			k = se.e.makeIface(k)
 		}
-		rv := se.e.heapGet(se.s, "RV!", arr(se.e.rangeKeySort, "Bool"))
+		rv := se.e.heapGet(se.s, se.e.rangeMap, arr(se.e.rangeKeySort, "Bool"))
 		return boolV(sel2(rv, k.T))
 	case "strLower":
 		se.e.ctx.declFun("str.lower", []string{"Str"}, "Str")
